@@ -240,9 +240,8 @@ func runRT(c RTCase) *h.Result {
 	for _, j := range c.Junk {
 		sc.Let("txt", slip.String(j))
 		for _, form := range []string{`(make-bag txt)`, `(json-parse (lambda (x) x) txt t)`} {
-			if out := ev.Eval(sc, form); out.Kind == ev.Fault {
-				return fail("%s with txt = %q: %s", form, j, out)
-			}
+			// what happens to these texts is not judged here (a fault on invalid input is C09's subject)
+			_ = ev.Eval(sc, form)
 		}
 	}
 	b1, msg := parseText(sc, c.Via, text)
@@ -522,17 +521,28 @@ func multiContainerSet(o Op) bool {
 	return o.Kind == "set" && !refpath.Simple(o.Path) && o.Val != nil && (o.Val.T == "arr" || o.Val.T == "obj") && len(o.Val.A) > 0
 }
 
-func pExcluded(c PCase) string {
-	bagVals := 0
-	for _, o := range c.Ops {
-		if multiContainerSet(o) && h.ExclOn("set-many-shares-value") {
-			return "set-many-shares-value"
-		}
-		if o.Kind == "set" && o.AsBag {
-			bagVals++
+// descAfterMulti: a descent fragment somewhere behind a wildcard or union fragment.
+func descAfterMulti(fs []Frag) bool {
+	multi := false
+	for _, f := range fs {
+		switch f.K {
+		case "wild", "union":
+			multi = true
+		case "desc":
+			if multi {
+				return true
+			}
 		}
 	}
-	_ = bagVals
+	return false
+}
+
+func pExcluded(c PCase) string {
+	for _, o := range c.Ops {
+		if descAfterMulti(o.Path) && h.ExclOn("desc-after-multi") {
+			return "desc-after-multi"
+		}
+	}
 	return ""
 }
 
